@@ -74,6 +74,8 @@ def main():
               nondimensionalize=case["nondim"], raise_on_fail=case["raise_on_fail"], warnings=False, verbose=False)
     if case.get("solve_for") is None:
         kw["solve_for"] = None
+    if "expected_size" in case:
+        kw["expected_size"] = int(case["expected_size"])
     layer_types = tuple(case.get("layer_types", p.layer_types))
     is_static = tuple(case.get("is_static", p.is_static))
     is_incomp = tuple(case.get("is_incompressible", p.is_incompressible))
@@ -95,6 +97,9 @@ def main():
         love = sol.love
         out["result_none"] = res is None
         out["love_none"] = love is None
+        if love is not None and sol.success:
+            lv = np.array(love, copy=True).ravel()
+            out["love"] = [[float(z.real), float(z.imag)] for z in lv]
         if res is not None:
             r = np.array(res, copy=True)
             out["result_finite"] = bool(np.all(np.isfinite(r[~np.isnan(r)]))) if r.size else True
